@@ -47,9 +47,9 @@ LinearValue(s, n) == IF n <= s.after THEN Unit
 
 \* GeometricCredit: factor^(n-1), factor = a / 100, computed exactly with big naturals
 GeomScaled(a, e) == PowScaled(BigPowSmall(a, e), e)                                  \* e >= 2
-GeometricCands(a, n) == LET e == n - 1 IN
-                        IF e = 0 THEN {Unit} ELSE IF e = 1 THEN {a * 100}
-                        ELSE LET x == GeomScaled(a, e) IN BigRoundCands(x.d, x.k)
+GeomCandsFromPow(pow, a, e) == IF e = 0 THEN {Unit} ELSE IF e = 1 THEN {a * 100}       \* pow = a^e
+                               ELSE LET x == PowScaled(pow, e) IN BigRoundCands(x.d, x.k)
+GeometricCands(a, n) == GeomCandsFromPow(BigPowSmall(a, n - 1), a, n - 1)
 GeometricValue(a, n) == LET e == n - 1 IN
                         IF e = 0 THEN Unit ELSE IF e = 1 THEN a * 100
                         ELSE LET x == GeomScaled(a, e) IN BigRoundHalfEven(x.d, x.k)
@@ -72,6 +72,17 @@ Value(s, n) == CASE s.k = "linear" -> LinearValue(s, n)
                  [] s.k = "author" -> AuthorValue(s, n)
                  [] s.k = "off" -> Unit
 Lo(s) == IF s.k = "linear" THEN s.min ELSE 0
+
+\* first attempt at which a sequence of observed values (attempts 1, 2, ...) leaves the documented candidates, 0 if
+\* none.  The geometric case carries the power along instead of recomputing it for every attempt.
+FirstOffFormula(s, vals) ==
+    IF s.k = "geometric"
+    THEN FoldLeft(LAMBDA acc, n : IF acc.bad # 0 THEN acc
+                                  ELSE [pow |-> BigMulSmall(acc.pow, s.a),
+                                        bad |-> IF vals[n] \in GeomCandsFromPow(acc.pow, s.a, n - 1) THEN 0 ELSE n],
+                  [pow |-> BigOne, bad |-> 0], [n \in 1..Len(vals) |-> n]).bad
+    ELSE LET bad == {n \in 1..Len(vals) : vals[n] \notin Cands(s, n)}
+         IN IF bad = {} THEN 0 ELSE CHOOSE n \in bad : \A m \in bad : n <= m
 
 \* ------------------------------------------------------------------ property level: schedules
 FirstIsOne(vals, one) == Len(vals) >= 1 => vals[1] = one
@@ -102,7 +113,7 @@ Judge(base, c, n, flag, obs) ==
     ELSE IF Len(obs.entries) # Len(base) THEN "length"
     ELSE IF \E i \in DOMAIN base : base[i].g = 0 /\ ~(obs.entries[i].exact /\ obs.entries[i].g8 = 0) THEN "zero_changed"
     ELSE IF \E i \in DOMAIN base : ~(obs.entries[i].exact /\ obs.entries[i].g8 = NewGrade8(base[i], c)) THEN "grade"
-    ELSE IF \E i \in DOMAIN base : obs.entries[i].ok # OkOf8(NewGrade8(base[i], c)) THEN "ok"
+    ELSE IF \E i \in DOMAIN base : obs.entries[i].ok # OkOf8(NewGrade8(base[i], c)) THEN "ok_not_recomputed"
     ELSE IF \E i \in DOMAIN base : ~obs.entries[i].kept THEN "message_lost"
     ELSE IF NoteDue(base, c, flag) /\ obs.notes = 0 THEN "note_missing"
     ELSE IF ~NoteDue(base, c, flag) /\ obs.notes > 0 THEN "note_unexpected"
